@@ -753,6 +753,15 @@ def do_export(backend, env, case, ps_all):
                 # the same exporter object asked for the other spelling first: each parse() answers its own options
                 exp.parse(units=not case["units"])
             return exp.parse(units=case["units"])
+        if case.get("other_option_first") and backend not in ("json", "yaml", "toml"):
+            # the same exporter object asked twice in a row: the second answer is the one that is read back
+            try:
+                if backend in ("c", "cpp"):
+                    exp.parse(define=tuple(".".join(case["params"][i]["path"]) for i in case["define"]) or None)
+                else:
+                    exp.parse()
+            except Exception:
+                pass
         if backend == "c":
             return exp.parse(define=tuple(".".join(case["params"][i]["path"]) for i in case["define"]) or None)
         if backend == "cpp":
